@@ -43,7 +43,7 @@ ENT = r"""
 Model: imports*=Import items*=Item refs*=Ref;
 Import: 'import' importURI=STRING;
 Item: 'item' name=ID ('=' val=Value)? ('tag' tag=ID)? ('{' subs+=Item '}')?;
-Ref: 'ref' name=ID '->' target=[Item] (',' more+=[Item])*;
+Ref: 'ref' name=ID '->' target=[Item] (',' more+=[Item][','])?;
 Value: NUMBER | STRING | BOOL;
 Comment: /#.*$/;
 """
@@ -52,7 +52,7 @@ ENT_FQN = r"""
 Model: imports*=Import items*=Item refs*=Ref;
 Import: 'import' importURI=STRING;
 Item: 'item' name=ID ('=' val=Value)? ('tag' tag=ID)? ('{' subs+=Item '}')?;
-Ref: 'ref' name=ID '->' target=[Item:FQN] (',' more+=[Item:FQN])*;
+Ref: 'ref' name=ID '->' target=[Item:FQN] (',' more+=[Item:FQN][','])?;
 Value: NUMBER | STRING | BOOL;
 FQN: ID('.'ID)*;
 Comment: /#.*$/;
@@ -65,7 +65,7 @@ Assign: name=ID '=' e=Expr ';';
 Print: 'print' e=Expr (',' more+=Expr)* ';';
 Expr: t=Term (ops+=AddOp ts+=Term)*;
 Term: f=Factor (ops+=MulOp fs+=Factor)*;
-Factor: n=NUMBER | v=[Assign] | '(' e=Expr ')' | s=STRING | 'b' b=BASETYPE;
+Factor: n=NUMBER | 'b' b=BASETYPE | v=[Assign] | '(' e=Expr ')' | s=STRING;
 AddOp: '+' | '-';
 MulOp: '*' | '/';
 Comment: /\/\/.*$/;
@@ -182,7 +182,7 @@ def wsg_text(rng, fail=None):
     lines = []
     for i in range(rng.randint(1, 3)):
         vals = [rng.choice(["1", "22", "ab", "c", "-3"]) for _ in range(rng.randint(1, 3))]
-        sep = rng.choice([",", ", ", " ,"])
+        sep = rng.choice([",", ", "])
         lines.append(rng.choice(["", " ", "  "]) + rng.choice(["k", "key", "z9"]) + ":" + rng.choice(["", " "])
                      + sep.join(vals) + rng.choice(["", " "]) + "\n")
     text = "".join(lines)
